@@ -69,11 +69,23 @@ def _profile_census(fn, *a, **kw):
         sys.setprofile(None)
 
 
+class Watchdog(BaseException):
+    """Raised by SIGALRM when one obligation exceeds its hard wall-clock limit (never a verdict: inconclusive)."""
+
+
+def _on_alarm(signum, frame):
+    raise Watchdog()
+
+
 def _work(args):
+    import signal
     idx, ob, tier = args
     from vlib import explore
     mod = _MOD
     t0 = time.monotonic()
+    budget0 = ob.get('_budget', mod.BUDGET.get(tier, 60.0) if hasattr(mod, 'BUDGET') else 60.0)
+    signal.signal(signal.SIGALRM, _on_alarm)
+    signal.setitimer(signal.ITIMER_REAL, budget0 * 2 + 45)
     out: Dict[str, Any] = {'idx': idx, 'ob': ob, 'verdict': 'confirmed', 'reason': '', 'paths': 0, 'decisions': 0,
                            'nontrivial': 0, 'witnesses': 0, 'unknown': 0, 'ignored': 0, 'failing': [],
                            'errors': [], 'sample': None, 'solver_queries': 0, 'solver_time': 0.0, 'census': []}
@@ -151,9 +163,18 @@ def _work(args):
             p = next((p for p in res.paths if p.outcome in ('ok', 'violation')), None)
             if p is not None:
                 out['sample'] = {'obligation': _public(ob), 'model': p.model, 'observation': _jsonable(p.observation)}
+    except Watchdog:
+        # a path that neither finishes nor reaches one of CrossHair's timeout checks: inconclusive, not a verdict
+        out['verdict'] = 'inconclusive'
+        out['reason'] = f'watchdog: obligation exceeded the hard limit of {budget0 * 2 + 45:.0f}s'
+        out['failing'] = [f for f in out['failing'] if f.get('confirmed')]
+        if out['failing']:
+            out['verdict'] = 'violated'
     except BaseException as e:  # noqa
         out['verdict'] = 'error'
         out['errors'].append({'label': type(e).__name__, 'detail': traceback.format_exc()[-3000:], 'model': {}})
+    finally:
+        signal.setitimer(signal.ITIMER_REAL, 0)
     out['wall'] = time.monotonic() - t0
     out['census'] = sorted(_CENSUS)
     _CENSUS.clear()
@@ -181,6 +202,118 @@ def _jsonable(v):
 
 def _public(ob):
     return {k: v for k, v in ob.items() if not k.startswith('_')}
+
+
+def _worker_loop(conn, prop_id, seed):
+    _worker_init(prop_id, seed)
+    while True:
+        try:
+            task = conn.recv()
+        except (EOFError, OSError):
+            return
+        if task is None:
+            return
+        try:
+            conn.send(_work(task))
+        except (BrokenPipeError, OSError):
+            return
+
+
+def _run_pool(prop_id, seed, jobs, nproc, mod, tier):
+    """
+    Own worker management instead of multiprocessing.Pool: a worker that is stuck inside a native z3 call cannot be
+    interrupted from Python (no bytecode boundary, z3 ignoring its timeout), so the parent enforces a hard per-obligation
+    wall-clock limit, kills the worker, records the obligation as inconclusive and starts a replacement.
+    """
+    from multiprocessing.connection import wait
+    ctx = mp.get_context('fork')
+    pending = list(reversed(jobs))
+    results = []
+    workers = {}          # conn -> [process, task or None, start time]
+
+    def spawn():
+        parent, child = ctx.Pipe()
+        p = ctx.Process(target=_worker_loop, args=(child, prop_id, seed), daemon=True)
+        p.start()
+        child.close()
+        workers[parent] = [p, None, 0.0]
+        return parent
+
+    def limit(task):
+        ob = task[1]
+        b = ob.get('_budget', mod.BUDGET.get(tier, 60.0) if hasattr(mod, 'BUDGET') else 60.0)
+        return b * 2 + 90
+
+    def feed(conn):
+        if pending:
+            task = pending.pop()
+            workers[conn][1], workers[conn][2] = task, time.monotonic()
+            conn.send(task)
+        else:
+            workers[conn][1] = None
+
+    # run-level bounds: a changed tree can make thousands of obligations slow (each within its own budget); the run then
+    # stops feeding new obligations - what is left is reported as inconclusive, what was found is still reported
+    known_keys = {f['key'] for f in load_known().get('findings', []) if f.get('property') == prop_id and f.get('status', 'open') == 'open'}
+    max_wall = float(os.environ.get('VERIF_MAX_WALL', '900' if tier == 'quick' else '7200'))
+    t_run = time.monotonic()
+    t_first_violation = None
+    for _ in range(nproc):
+        feed(spawn())
+    while any(w[1] is not None for w in workers.values()):
+        now0 = time.monotonic()
+        if t_first_violation is None and any(_has_new_violation(r, mod, known_keys) for r in results[-64:]):
+            t_first_violation = now0
+        if pending and (now0 - t_run > max_wall or (t_first_violation is not None and now0 - t_first_violation > 120)):
+            why = 'run wall-clock bound reached' if now0 - t_run > max_wall else 'stopped 120 s after the first confirmed violation'
+            while pending:
+                results.append(_killed_result(pending.pop(), 'not explored: ' + why))
+        busy = [c for c, w in workers.items() if w[1] is not None]
+        for conn in wait(busy, timeout=2.0):
+            try:
+                results.append(conn.recv())
+            except (EOFError, OSError):
+                task = workers[conn][1]
+                results.append(_killed_result(task, 'worker died'))
+                workers.pop(conn)[0].kill()
+                conn = spawn()
+            feed(conn)
+        now = time.monotonic()
+        for conn, w in list(workers.items()):
+            if w[1] is not None and now - w[2] > limit(w[1]):
+                results.append(_killed_result(w[1], f'hard limit {limit(w[1]):.0f}s exceeded (worker stuck in native code, killed)'))
+                w[0].kill()
+                workers.pop(conn)
+                conn.close()
+                feed(spawn())
+    for conn, w in workers.items():
+        try:
+            conn.send(None)
+        except (BrokenPipeError, OSError):
+            pass
+    for w in workers.values():
+        w[0].join(timeout=2)
+        if w[0].is_alive():
+            w[0].kill()
+    return results
+
+
+def _has_new_violation(r, mod, known_keys):
+    if r['verdict'] != 'violated':
+        return False
+    for f in r['failing']:
+        if f.get('confirmed'):
+            key = mod.finding_key(r['ob'], f['label'], f['model']) if hasattr(mod, 'finding_key') else f"{r['ob'].get('h', '')}/{f['label']}"
+            if key not in known_keys:
+                return True
+    return False
+
+
+def _killed_result(task, why):
+    idx, ob, tier = task
+    return {'idx': idx, 'ob': ob, 'verdict': 'inconclusive', 'reason': why, 'paths': 0, 'decisions': 0, 'nontrivial': 0,
+            'witnesses': 0, 'unknown': 0, 'ignored': 0, 'failing': [], 'errors': [], 'sample': None, 'solver_queries': 0,
+            'solver_time': 0.0, 'census': [], 'wall': 0.0}
 
 
 def load_known():
@@ -244,12 +377,7 @@ def main(argv: List[str]) -> int:
     if hasattr(mod, 'extra_checks'):
         # engine E2 and the like: run in the parent, results merged below
         extra = mod.extra_checks(tier)
-    ctx = mp.get_context('fork')
-    results = []
-    chunk = max(1, min(64, len(jobs) // (nproc * 8) or 1))
-    with ctx.Pool(nproc, initializer=_worker_init, initargs=(prop_id, seed)) as pool:
-        for r in pool.imap_unordered(_work, jobs, chunksize=chunk):
-            results.append(r)
+    results = _run_pool(prop_id, seed, jobs, nproc, mod, tier)
     results.extend(extra)
     return finish(prop_id, tier, seed, mod, results, time.monotonic() - t0)
 
